@@ -306,6 +306,10 @@ pub fn run(args: &[String], input: &mut dyn BufRead, out: &mut dyn Write) {
     let case_deadline = Duration::from_millis(args.get(0).and_then(|a| a.parse().ok()).unwrap_or(40_000));
     let barrier_deadline = Duration::from_millis(args.get(1).and_then(|a| a.parse().ok()).unwrap_or(8_000));
     let mut hung = false;
+    // once a rendezvous has timed out after the full deadline (a failure is reported for that
+    // case), later cases of this process use a short deadline so that a broken pool does not
+    // cost the full deadline per case
+    let mut timed_out_before = false;
     for line in input.lines() {
         let line = match line {
             Ok(l) => l,
@@ -326,6 +330,7 @@ pub fn run(args: &[String], input: &mut dyn BufRead, out: &mut dyn Write) {
         // the pool lives on its own thread so that a `drop` that never returns can be reported
         let (tx, rx) = mpsc::channel::<Facts>();
         let ops2 = ops.clone();
+        let barrier_deadline = if timed_out_before { barrier_deadline.min(Duration::from_millis(500)) } else { barrier_deadline };
         let h = std::thread::Builder::new()
             .name("pool-case".into())
             .spawn(move || {
@@ -336,6 +341,9 @@ pub fn run(args: &[String], input: &mut dyn BufRead, out: &mut dyn Write) {
         let res = match rx.recv_timeout(case_deadline) {
             Ok(f) => {
                 let _ = h.join();
+                if f.barrier_timeouts > 0 || f.waiter_timeouts > 0 {
+                    timed_out_before = true;
+                }
                 render(n, &f)
             }
             Err(mpsc::RecvTimeoutError::Timeout) => {
